@@ -55,6 +55,9 @@ pub enum Step {
     /// the administrator snapshots database d and the snapshot is executed: keys (permission lists among them) that are
     /// removed afterwards stay in memory as tombstones instead of disappearing
     Snapshot,
+    /// the administrator removes user bob (`remove $$user_bob`): none of bob's credentials, and nothing that looks like
+    /// what is left of them, opens the database afterwards
+    RemoveBob,
 }
 
 #[derive(Clone, Debug, Serialize, Deserialize)]
@@ -97,7 +100,7 @@ fn cmd_strategy() -> impl Strategy<Value = Cmd> {
         1 => Just(Cmd::AuthOk),
         1 => Just(Cmd::AuthWrong),
         2 => (0..10u8).prop_map(|v| Cmd::AuthNearMiss { v }),
-        2 => (select(vec!["d", "d", "e"]), 0..4u8).prop_map(|(db, v)| Cmd::UseDbNearMiss { db: db.to_string(), v }),
+        2 => (select(vec!["d", "d", "e"]), 0..5u8).prop_map(|(db, v)| Cmd::UseDbNearMiss { db: db.to_string(), v }),
         4 => (select(vec!["d", "d", "e", "nosuch"]), prop::bool::weighted(0.7)).prop_map(|(db, right)| Cmd::UseDb { db: db.to_string(), right }),
         2 => select(vec!["d", "d", "e", "nosuch"]).prop_map(|db| Cmd::UseDbOtherFormWrong { db: db.to_string() }),
         10 => (select(vec!["get", "get-safe", "set", "set-safe", "remove", "increment", "watch", "unwatch"]), key.clone()).prop_map(|(w, key)| Cmd::Data { word: w.to_string(), key }),
@@ -118,6 +121,7 @@ pub fn case_strategy() -> impl Strategy<Value = Case> {
             12 => (0..n, cmd_strategy()).prop_map(|(s, cmd)| Step::Do { s, cmd }),
             1 => select(PERMS.to_vec()).prop_map(|p| Step::SetPerms { perms: p.to_string() }),
             1 => Just(Step::Snapshot),
+            1 => Just(Step::RemoveBob),
         ];
         prop::collection::vec(step, 1..9).prop_map(move |steps| Case { kinds: kinds.clone(), bob_perms: perms.to_string(), steps })
     })
@@ -156,6 +160,7 @@ struct World {
     sessions: Vec<Session>,
     msessions: Vec<MSession>,
     bob_perms: String,
+    bob_removed: bool,
 }
 
 fn token_for(kind: &Kind, db: &str, right: bool) -> String {
@@ -193,7 +198,9 @@ fn render(kind: &Kind, cmd: &Cmd) -> String {
         Cmd::UseDbNearMiss { db, v } => {
             let right = token_for(kind, db, true);
             let right = if let Kind::Anon = kind { (if db == "d" { "dtok" } else { "etok" }).to_string() } else { right };
-            match v % 4 {
+            match v % 5 {
+                // the text a removed key holds in memory
+                4 => format!("use-db {} {}", db, if right.contains(' ') { "bob <Empty>" } else { "<Empty>" }),
                 0 => format!("use-db {} {}", db, &right[..right.len() - 1]),
                 1 => format!("use-db {} {}x", db, right),
                 2 => format!("use-db {}", db),
@@ -252,7 +259,7 @@ fn new_world(dir: &str, case: &Case) -> World {
     admin.drain();
     let sessions = case.kinds.iter().map(|_| Session::new()).collect();
     let msessions = case.kinds.iter().map(|_| MSession::default()).collect();
-    World { node, admin, sessions, msessions, bob_perms: case.bob_perms.clone() }
+    World { node, admin, sessions, msessions, bob_perms: case.bob_perms.clone(), bob_removed: false }
 }
 
 fn cur_value(node: &Node, db: &str, key: &str) -> String {
@@ -276,7 +283,21 @@ fn step(w: &mut World, kinds: &[Kind], st: &Step, flags: &mut Flags) -> Option<(
             }
             None
         }
+        Step::RemoveBob => {
+            let (r, _) = w.admin.send(&w.node, "remove $$user_bob");
+            w.node.pump();
+            w.admin.drain();
+            if is_refusal(&r) {
+                return Some(("C09|admin-setup-refused".into(), format!("remove $$user_bob -> {}", resp_text(&r))));
+            }
+            w.bob_removed = true;
+            None
+        }
         Step::SetPerms { perms } => {
+            // (what was pushed while the old list was in force was pushed rightfully)
+            for sess in w.sessions.iter_mut() {
+                sess.drain();
+            }
             let line = if perms.is_empty() { "remove $$permission_$bob".to_string() } else { format!("set-permissions bob {}", perms) };
             let (r, _) = w.admin.send(&w.node, &line);
             w.node.pump();
@@ -326,7 +347,8 @@ fn step(w: &mut World, kinds: &[Kind], st: &Step, flags: &mut Flags) -> Option<(
                 Cmd::UseDb { db, right } => {
                     let exists = db == "d" || db == "e";
                     let user_exists_there = match kind {
-                        Kind::UserBob | Kind::UserAll => db == "d",
+                        Kind::UserBob => db == "d" && !w.bob_removed,
+                        Kind::UserAll => db == "d",
                         _ => true,
                     };
                     if exists && *right && user_exists_there { Expect::Accept } else { Expect::Refuse }
@@ -378,6 +400,9 @@ fn step(w: &mut World, kinds: &[Kind], st: &Step, flags: &mut Flags) -> Option<(
                         Expect::Refuse
                     } else if key.starts_with("$$") {
                         Expect::Refuse
+                    } else if sel_db.as_deref() != Some("d") {
+                        // the command names database d: a session that selected another one has no credential for it
+                        Expect::Refuse
                     } else {
                         match &user_perms {
                             None => Expect::Accept,
@@ -407,7 +432,16 @@ fn step(w: &mut World, kinds: &[Kind], st: &Step, flags: &mut Flags) -> Option<(
             // ---- execute
             // what other sessions' accepted writes pushed to this session since its last command (watch
             // notifications it was entitled to) must not be attributed to the command sent now
-            w.sessions[*s].drain();
+            let pushed = w.sessions[*s].drain();
+            if let (false, Some("bob")) = (ms.auth, sel_user.as_deref()) {
+                // ... but a value pushed for a key the list in force does not let this user read is a read without a grant
+                for m in pushed.iter().filter(|m| m.starts_with("changed ")) {
+                    let k = m.split(' ').nth(1).unwrap_or("");
+                    if !grants(&w.bob_perms, 'r', k) {
+                        return Some(("C09|watch|user-with-list|value-pushed-after-the-read-grant-was-revoked".to_string(), format!("{:?} watched {:?} while its list granted the read; the list is now {:?} and the session was still pushed {:?}", kind, k, w.bob_perms, m)));
+                    }
+                }
+            }
             let (r, msgs) = w.sessions[*s].send(&w.node, &line);
             w.node.pump();
             let refused = is_refusal(&r);
@@ -611,6 +645,44 @@ fn matrix() -> Vec<Case> {
             }
         }
     }
+    // a watch registered while the list granted the read, the grant revoked afterwards, another session writes the key
+    for new_perms in ["", "w *", "r c", "rwix bs"] {
+        for word in ["set", "set-safe", "increment"] {
+            for key in ["a", "abc"] {
+                let steps = vec![
+                    Step::Do { s: 0, cmd: Cmd::UseDb { db: "d".into(), right: true } },
+                    Step::Do { s: 0, cmd: Cmd::Data { word: "watch".into(), key: key.into() } },
+                    Step::Do { s: 1, cmd: Cmd::UseDb { db: "d".into(), right: true } },
+                    Step::SetPerms { perms: new_perms.to_string() },
+                    Step::Do { s: 1, cmd: Cmd::Data { word: word.into(), key: key.into() } },
+                    Step::Do { s: 0, cmd: Cmd::Keys { pattern: "*".into() } },
+                ];
+                out.push(Case { kinds: vec![Kind::UserBob, Kind::DbToken], bob_perms: "r a*".into(), steps });
+            }
+        }
+    }
+    // a removed user: none of its credentials opens the database any more, whether or not its key had reached the disk
+    for snapshot_first in [true, false] {
+        for kind in [Kind::UserBob, Kind::Anon, Kind::DbToken] {
+            let mut tries: Vec<Cmd> = (0..5u8).map(|v| Cmd::UseDbNearMiss { db: "d".into(), v }).collect();
+            tries.push(Cmd::UseDb { db: "d".into(), right: true });
+            for t in tries {
+                if kind != Kind::UserBob && matches!(t, Cmd::UseDb { .. }) {
+                    continue;
+                }
+                let mut steps = vec![];
+                if snapshot_first {
+                    steps.push(Step::Snapshot);
+                }
+                steps.push(Step::RemoveBob);
+                // (sessions that are not bob's try bob's credential form)
+                let t = if kind != Kind::UserBob { Cmd::UseDbOtherFormWrong { db: "d".into() } } else { t };
+                steps.push(Step::Do { s: 0, cmd: t });
+                steps.push(Step::Do { s: 0, cmd: Cmd::Data { word: "get".into(), key: "a".into() } });
+                out.push(Case { kinds: vec![kind.clone()], bob_perms: "rwix *".into(), steps });
+            }
+        }
+    }
     for (kind, pre) in prefixes {
         let perms_list: Vec<&str> = if kind == Kind::UserBob { PERMS.to_vec() } else { vec![""] };
         for p in perms_list {
@@ -721,6 +793,181 @@ pub fn run_http_case(twin: &HttpTwin, case: &HttpCase) -> Outcome {
     out
 }
 
+
+// ------------------------------------------------------------------ the same credential rules in a cluster
+// What a session sends is forwarded to the primary / replicated to the secondaries over links that hold
+// administrator rights: the credential rules have to hold for what arrives THERE, too. Two-node cluster (E3), two
+// databases; the session owns a credential for `d` only (or none). After every command the cluster settles and on BOTH
+// nodes: database `e` is what it was, a key of `d` changed only if it is the key the command names and the session's
+// credential grants that kind of access to it, and a command that needs the administrator caused no traffic between
+// the nodes.
+
+pub const CKEYS: &[&str] = &["a", "as", "bs", "c", "abc", "$$secret", "a\rbs", "c\nas", "bs\r", "zz\n-as"];
+
+#[derive(Clone, Debug, Serialize, Deserialize, PartialEq)]
+pub enum CCmd {
+    Data { word: String, key: String },
+    Resolve { db: String, key: String, version: i32 },
+    Raw { line: String },
+}
+
+#[derive(Clone, Debug, Serialize, Deserialize)]
+pub struct CCase {
+    /// Anon | DbToken | UserBob
+    pub kind: Kind,
+    pub perms: String,
+    pub node: usize,
+    pub cmds: Vec<CCmd>,
+}
+
+fn cluster_raw_lines() -> Vec<&'static str> {
+    let mut v = cluster_lines();
+    v.extend(["election active n9:3017", "election anything", "rp 9 election active n9:3017", "rp 9 resolve 5 e a -1 stolen", "create-db g gtok", "snapshot false e"]);
+    v
+}
+
+pub fn ccase_strategy() -> impl Strategy<Value = CCase> {
+    let key = select(CKEYS.to_vec()).prop_map(|s| s.to_string());
+    let cmd = prop_oneof![
+        6 => (select(vec!["set", "set-safe", "remove", "increment"]), key.clone()).prop_map(|(w, key)| CCmd::Data { word: w.to_string(), key }),
+        3 => (select(vec!["d", "e", "e"]), key.clone(), select(vec![-1, 0, 1])).prop_map(|(db, key, version)| CCmd::Resolve { db: db.to_string(), key, version }),
+        2 => select(cluster_raw_lines()).prop_map(|l| CCmd::Raw { line: l.to_string() }),
+    ];
+    (select(vec![Kind::Anon, Kind::DbToken, Kind::DbToken, Kind::UserBob, Kind::UserBob]), select(PERMS.to_vec()), 0..2usize, prop::collection::vec(cmd, 1..5)).prop_map(|(kind, perms, node, cmds)| CCase { kind, perms: perms.to_string(), node, cmds })
+}
+
+pub fn run_cluster_case(ctx: &Ctx, case: &CCase) -> Outcome {
+    use crate::props::c04::{boot_cluster, cluster_dump};
+    let scratch = ctx.fresh_dir();
+    let mut c = match boot_cluster(&scratch, 2) {
+        Ok(c) => c,
+        Err(e) => {
+            ctx.drop_dir(&scratch);
+            return Outcome::failed("C09|set-up", e);
+        }
+    };
+    let mut setup = vec![format!("auth {} {}", crate::node::USER, crate::node::PWD)];
+    for (db, tok) in [("d", "dtok"), ("e", "etok")] {
+        setup.push(format!("create-db {} {}", db, tok));
+        setup.push(format!("use-db {} {}", db, tok));
+        for (k, v) in [("a", "1"), ("as", "2"), ("bs", "3"), ("c", "4"), ("abc", "5"), ("$$secret", "s3cr3t")] {
+            setup.push(format!("set {} {}", k, v));
+        }
+    }
+    setup.push("use-db d dtok".into());
+    setup.push("create-user bob bobtok".into());
+    if !case.perms.is_empty() {
+        setup.push(format!("set-permissions bob {}", case.perms));
+    }
+    c.client(0, setup);
+    let mut out = Outcome::ok(false);
+    out.classes.push("in-a-cluster");
+    if !c.run(&mut |_| 0, 400_000) {
+        drop(c);
+        ctx.drop_dir(&scratch);
+        return Outcome::failed("C09|set-up", "the cluster did not become quiet after the set-up".to_string());
+    }
+    let sid = c.open_session(case.node);
+    match case.kind {
+        Kind::DbToken => {
+            c.session_send(sid, vec!["use-db d dtok".into()]);
+        }
+        Kind::UserBob => {
+            c.session_send(sid, vec!["use-db d bob bobtok".into()]);
+        }
+        _ => {}
+    }
+    c.run(&mut |_| 0, 400_000);
+    let who = match case.kind {
+        Kind::DbToken => "db-token",
+        Kind::UserBob => "user",
+        _ => "no-credential",
+    };
+    let mut before = [cluster_dump(&c, 0), cluster_dump(&c, 1)];
+    for (i, cmd) in case.cmds.iter().enumerate() {
+        let cur = before[case.node].get("d").and_then(|m| m.get(match cmd { CCmd::Data { key, .. } | CCmd::Resolve { key, .. } => key.as_str(), _ => "" })).map(|v| v.1).unwrap_or(0);
+        // (a key is what the node makes of it: line breaks are not part of a key, on any node)
+        let seen = |k: &String| k.replace('\n', "").replace('\r', "");
+        let (line, named, access) = match cmd {
+            CCmd::Data { word, key } => match word.as_str() {
+                "set" => (format!("set {} v{}", key, i), Some(seen(key)), 'w'),
+                "set-safe" => (format!("set-safe {} {} v{}", key, cur.max(0) + 1, i), Some(seen(key)), 'w'),
+                "increment" => (format!("increment {} 2", key), Some(seen(key)), 'i'),
+                _ => (format!("remove {}", key), Some(seen(key)), 'x'),
+            },
+            CCmd::Resolve { db, key, version } => (format!("resolve 77 {} {} {} stolen{}", db, key, version, i), if db == "d" { Some(seen(key)) } else { None }, 'w'),
+            CCmd::Raw { line } => (line.clone(), None, ' '),
+        };
+        let traffic_before = c.delivered.iter().filter(|m| m.kind != "client").count();
+        let reply = c.session_send(sid, vec![line.clone()]);
+        let settled = c.run(&mut |_| 0, 20_000);
+        let traffic = c.delivered.iter().filter(|m| m.kind != "client").count() - traffic_before;
+        let word = word_of(&line);
+        // a changed key is within the session's credential when the credential grants this kind of access to THAT key
+        // (the conflict record a granted resolve leaves behind counts as part of the resolve)
+        let within = |key: &str| -> bool {
+            !key.starts_with("$$")
+                && match case.kind {
+                    Kind::DbToken => true,
+                    Kind::UserBob => grants(&case.perms, access, key),
+                    _ => false,
+                }
+        };
+        let granted = |key: &str| -> bool {
+            if access == ' ' {
+                return false;
+            }
+            if let (CCmd::Resolve { .. }, Some(n)) = (cmd, named.as_deref()) {
+                if key.starts_with(&format!("$conflicts_{}_", n)) {
+                    return within(n);
+                }
+            }
+            within(key)
+        };
+        for node in 0..2 {
+            let now = cluster_dump(&c, node);
+            for (db, keys) in now.iter() {
+                let was = before[node].get(db);
+                for (k, v) in keys.iter() {
+                    if was.and_then(|m| m.get(k)) == Some(v) {
+                        continue;
+                    }
+                    let what = if db != "d" {
+                        "a-database-it-has-no-credential-for-changed"
+                    } else if granted(k) {
+                        out.nontrivial = true;
+                        continue;
+                    } else if named.as_deref() == Some(k.as_str()) {
+                        "the-key-it-named-but-is-not-granted-changed"
+                    } else {
+                        "a-key-it-neither-named-nor-is-granted-changed"
+                    };
+                    out.fail = Some((format!("C09|in-a-cluster|{}|{}|{}", word, who, what), format!("step {}: the {} session (perms {:?}) on n{} sent {:?} (reply {:?}): on n{} {}.{:?} went {:?} -> {:?}", i, who, case.perms, case.node, line, reply, node, db, k, was.and_then(|m| m.get(k)), v)));
+                }
+            }
+            if now.len() != before[node].len() && out.fail.is_none() {
+                out.fail = Some((format!("C09|in-a-cluster|{}|{}|databases-changed", word, who), format!("step {}: the {} session on n{} sent {:?}: n{} now has the databases {:?}", i, who, case.node, line, node, now.keys().collect::<Vec<_>>())));
+            }
+            before[node] = now;
+        }
+        if out.fail.is_none() && named.is_none() && traffic > 0 {
+            out.nontrivial = true;
+            let sample: Vec<String> = c.delivered.iter().filter(|m| m.kind != "client").rev().take(3).map(|m| format!("n{}->n{} {:?}", m.from, m.to, m.line)).collect();
+            out.fail = Some((format!("C09|in-a-cluster|{}|{}|traffic-between-the-nodes", word, who), format!("step {}: the {} session on n{} sent {:?} (reply {:?}), which it has no credential for: {} lines went between the nodes afterwards{}, e.g. {:?}", i, who, case.node, line, reply, traffic, if settled { "" } else { " and the cluster did not become quiet" }, sample)));
+        }
+        if named.is_none() {
+            out.nontrivial = true;
+        }
+        if out.fail.is_some() || !settled {
+            // (a cluster that does not settle is another property's business: C14)
+            break;
+        }
+    }
+    drop(c);
+    ctx.drop_dir(&scratch);
+    out
+}
+
 fn install_link_sink() {
     // `join` from an authenticated session would open a replication link: hand it to a sink
     fn sink(_k: &'static str, _p: &str, _l: &str, _d: &std::sync::Arc<nundb::bo::Databases>, _r: futures::channel::mpsc::Receiver<String>) -> Option<futures::channel::mpsc::Receiver<String>> {
@@ -742,6 +989,11 @@ pub fn run(ctx: &Ctx, rep: &mut Report) {
         let n = ctx.amount(1200, 40_000);
         explore(ctx, rep, "requests-over-http", n, http_case_strategy(), |c| run_http_case(&twin, c));
     }
+    if rep.failures.is_empty() {
+        let n = ctx.amount(600, 20_000);
+        crate::report::explore_with(ctx, rep, "in-a-cluster", n, 100, ccase_strategy(), |c| run_cluster_case(ctx, c));
+        install_link_sink();
+    }
 }
 
 pub fn replay(ctx: &Ctx, engine: &str, case: &J) -> Result<Option<(String, String)>, String> {
@@ -750,6 +1002,9 @@ pub fn replay(ctx: &Ctx, engine: &str, case: &J) -> Result<Option<(String, Strin
     if engine == "requests-over-http" {
         let twin = start_http_twin(ctx);
         return replay_guarded::<HttpCase>(ctx, case, |c| run_http_case(&twin, c));
+    }
+    if engine == "in-a-cluster" {
+        return replay_guarded::<CCase>(ctx, case, |c| run_cluster_case(ctx, c));
     }
     replay_guarded::<Case>(ctx, case, |c| run_case(ctx, c))
 }
